@@ -2,6 +2,7 @@ package main
 
 import (
 	"fmt"
+	"reflect"
 
 	"github.com/robertkrimen/otto"
 
@@ -157,6 +158,47 @@ var goAPI2 = []struct {
 		vm.MakeCustomError("", "")
 		vm.MakeCustomError("%s", "%d")
 		vm.MakeTypeError("%!")
+	}},
+	{"reflect-values-handed-to-the-api", func(vm *otto.Otto) {
+		// a zero reflect.Value (what reflect.ValueOf(nil) gives), one from an unexported field, nil pointers,
+		// nil maps/slices/funcs/interfaces/channels wrapped in reflect.Value (b3a477e)
+		type priv struct {
+			a int
+			B *int
+			C map[string]int
+			D []int
+			E func()
+			F interface{}
+			G chan int
+		}
+		rv := reflect.ValueOf(priv{a: 1})
+		vals := []interface{}{reflect.Value{}, rv.Field(0), rv.Field(1), rv.Field(2), rv.Field(3), rv.Field(4), rv.Field(5), rv.Field(6),
+			reflect.ValueOf(&priv{}), reflect.ValueOf((*priv)(nil)), reflect.ValueOf(reflect.Value{}), reflect.ValueOf(rv)}
+		for i, v := range vals {
+			vm.ToValue(v)
+			otto.ToValue(v)
+			vm.Set(fmt.Sprintf("rv%d", i), v)
+			vm.Run(fmt.Sprintf(`typeof rv%d; String(rv%d); rv%d && rv%d.x; JSON.stringify(rv%d)`, i, i, i, i, i))
+			vm.Call(`(function(x){ return typeof x })`, nil, v)
+			vm.Call(`Object.keys`, nil, v)
+		}
+	}},
+	{"context-with-throwing-getters", func(vm *otto.Otto) {
+		// Context / ContextLimit / ContextSkip read every visible binding: accessor properties of with objects
+		// and of the global object run script that may throw (2253018)
+		vm.Set("ctx", func(call otto.FunctionCall) otto.Value {
+			call.Otto.Context()
+			call.Otto.ContextLimit(1)
+			call.Otto.ContextSkip(3, false)
+			return otto.UndefinedValue()
+		})
+		vm.Run(`var o = {get bad(){ throw new Error("boom") }, get worse(){ throw {toString: function(){ throw 1 }} }, ok: 1}; with (o) { (function(){ ctx() })() }`)
+		vm.Run(`Object.defineProperty(this, "gbad", {get: function(){ throw new Error("boom") }, enumerable: true, configurable: true}); ctx()`)
+		vm.Run(`Object.defineProperty(this, "gloop", {get: function(){ return ctx() }, enumerable: true, configurable: true})`)
+		vm.Context()
+		vm.ContextLimit(0)
+		vm.ContextSkip(-1, true)
+		vm.Run(`delete this.gbad; delete this.gloop`)
 	}},
 }
 
